@@ -239,7 +239,12 @@ func (s *scanner) scanner(store *stor.Stor) {
 }
 
 func (s *scanner) stop() {
+	// set done while holding the lock, otherwise getUpTo can test done,
+	// miss the final Signal, and then Wait forever (lost wakeup)
+	s.lock.Lock()
 	atomic.StoreUint32(&s.done, 1)
+	s.lock.Unlock()
+	s.cond.Broadcast()
 }
 
 func (s *scanner) close() {
